@@ -251,6 +251,10 @@ def draw_config(case, ch: Choices):
         s["call_headers"] = ch.pick("sub.ch", [None, {"X-Call": "k%d" % i}, {"X-Client": "override%d" % i}])
         s["start_delay"] = ch.pick("sub.delay", [0.0, 0.0, 0.01, 2.0])
         s["vars"] = ch.draw("sub.vars", 6)
+        # the consumer may leave early (break out of the async for / never start it) and close the generator: nothing is
+        # asserted about that subscription beyond what happened before it left, but the other subscriptions on the same
+        # client object keep their full oracle
+        s["leave_after"] = None if p.get("mode") == "enum" else ch.pick("sub.leave", [None, None, None, None, None, None, 0, 1, 2])
         if p.get("mode") == "enum":
             s["script"] = enum_script(p["phase"], p["kinds"], ch if p.get("vary") else None, s["via"])
         else:
@@ -520,9 +524,21 @@ def simulate(case, ch: Choices, variant_override=None):
             it, opname, variables, root = make_call(mods, variant, sub, shared)   # harness code
             rec.call = (opname, variables, root)
             try:
-                async for item in it:
-                    rec.yields.append((loop.next_seq(), item))
-                rec.terminal = ("end", None, {})
+                leave = sub.get("leave_after")
+                left = False
+                if leave == 0:
+                    left = True
+                else:
+                    async for item in it:
+                        rec.yields.append((loop.next_seq(), item))
+                        if leave is not None and len(rec.yields) >= leave:
+                            left = True
+                            break
+                if left:
+                    await it.aclose()
+                    rec.terminal = ("left", None, {"after": len(rec.yields)})
+                else:
+                    rec.terminal = ("end", None, {})
             except asyncio.CancelledError:
                 rec.terminal = ("cancelled", None, {})
                 raise
@@ -603,7 +619,11 @@ def _norm_client_frame(f):
 
 def observable(cfg, recs):
     out = []
+    someone_left = any(s.get("leave_after") is not None for s in cfg["subs"])
     for r in recs:
+        script = cfg["subs"][r.index]["script"]
+        _frames, _how = script_frames(script)
+        disturbed = _how != "linger" or any(st["s"] == "stall" and st["d"] >= 9.0 for st in script)
         ys = []
         for _, y in r.yields:
             ys.append(y.model_dump(by_alias=True, mode="json") if hasattr(y, "model_dump") else y)
@@ -611,9 +631,24 @@ def observable(cfg, recs):
         if r.opened:
             h = r.opened[2]
             hs = {k: h.get(k) for k in ("x-client", "x-call", "authorization", "origin", "sec-websocket-protocol")}
+        if r.terminal and r.terminal[0] == "left":
+            # the consumer left: what the closing generator still does (a pong for a ping in flight, when the socket closes)
+            # races with the server and is not compared
+            # (nor which of its frames the server had read when the run ended)
+            out.append({"yields": ys, "terminal": r.terminal, "subprotocol": r.opened[1] if r.opened else None, "headers": hs})
+            continue
+        if someone_left and disturbed:
+            # a consumer leaving early closes its generator through a different number of loop steps in the two variants;
+            # for a subscription whose connection the server disturbs (close/abort/long stall) that shifts where its stream
+            # is cut: only the handshake part is compared (its yields are still judged as a correct prefix)
+            out.append({"frames": [_norm_client_frame(f) for _, f in r.client_frames][:2],
+                        "subprotocol": r.opened[1] if r.opened else None, "headers": hs})
+            continue
         out.append({"yields": ys, "terminal": r.terminal, "frames": [_norm_client_frame(f) for _, f in r.client_frames],
                     "subprotocol": r.opened[1] if r.opened else None, "headers": hs,
-                    "saw_close": r.server_saw_close})
+                    # (when the run ends - all consumers done - decides whether a handler still gets to see the close:
+                    # with an early leaver that moment differs between the variants)
+                    "saw_close": None if someone_left else r.server_saw_close})
     return out
 
 
@@ -646,6 +681,12 @@ def judge(cfg, recs, info, res: RunResult, variant):
                 and r.opened is not None and info["simtime"] >= 9.0:
             res.bump("handshake_timeouts")
             continue
+        if term[0] == "left":
+            res.bump("consumer.left_early")
+            if sub.get("leave_after") == 0:
+                if r.opened is not None:
+                    res.observations.append("generator-closed-before-first-iteration-still-connected")
+                continue
         # ---- connection never reached the server
         if r.opened is None:
             V("handshake-failed", "%s: no websocket connection reached the real websockets server; client outcome %r"
@@ -675,7 +716,7 @@ def judge(cfg, recs, info, res: RunResult, variant):
         cf_ = r.client_frames
         types = [f.get("type") if isinstance(f, dict) else None for _, f in cf_]
         if not cf_:
-            if exact:
+            if exact and term[0] != "left":      # (a consumer that left at once: its frames may still be in flight)
                 V("init-missing", "%s: client sent no frame at all" % tag)
         else:
             first = cf_[0][1]
@@ -733,6 +774,17 @@ def judge(cfg, recs, info, res: RunResult, variant):
         others = [t for t in extra if t != "pong"]
         if others and exp["subscribe"]:
             V("unexpected-client-frame", "%s: unexpected client frames %r" % (tag, others))
+        if term[0] == "left":
+            # what it consumed before leaving must be the expected prefix; no further obligations for this subscription
+            ys_ = [y for _, y in r.yields]
+            exp_ = exp["yields"]
+            if sub["via"] != "base":
+                M_ = getattr(mods["fx_async"] if variant == "plain" else mods["fx_async_otel"],
+                             {"gen_counter": "Counter", "gen_item_added": "ItemAdded", "gen_searching": "Searching"}[sub["via"]])
+                exp_ = [d if isinstance(d, ws_model.OptionalYield) else M_.model_validate(d) for d in exp_]
+            if not probe and not ws_model.match_yields(ys_, exp_, prefix=True):
+                V("yield-not-prefix", "%s: yielded %r before leaving, not a prefix of %r" % (tag, _short(ys_), _short(exp_)))
+            continue
         if probe:
             res.bump("probe_runs")
             res.observations.append("probe:%s->%s" % (exp["terminal"][1] if exp["terminal"][0] == "probe" else "mixed",
